@@ -320,3 +320,18 @@ Proof.
       pose proof (hub_lower gamma t u Hg Hu). lra.
 Qed.
 
+
+(* the repaired proximal_huber computes x * factor; same point as huber_p *)
+Definition huber_pf (gamma s x : R) : R := x * @huber_factor R _ gamma s (Rabs x).
+Lemma huber_pf_eq gamma s x : 0 <= gamma -> 0 < s -> huber_pf gamma s x = huber_p gamma s x.
+Proof.
+  intros Hg Hs. unfold huber_pf, huber_p, huber_factor. numR.
+  destruct (Rleb_spec (Rabs x) (gamma + s)) as [H|H]; [ring|].
+  apply Rnot_le_lt in H. unfold nsign. numR.
+  destruct (abs_cases x) as [[P E]|[P E]]; rewrite E in *.
+  - destruct (Rltb_spec 0 x); [|exfalso; lra]. field. lra.
+  - destruct (Rltb_spec 0 x); [exfalso; lra|]. destruct (Rltb_spec x 0); [|exfalso; lra]. field. lra.
+Qed.
+Lemma huber_opt' gamma s x : 0 <= gamma -> 0 < s ->
+  sub1 (fun t => Some (hub gamma t)) s x (x * @huber_factor R _ gamma s (Rabs x)).
+Proof. intros Hg Hs. fold (huber_pf gamma s x). rewrite huber_pf_eq by assumption. apply huber_opt; assumption. Qed.
